@@ -675,14 +675,14 @@ impl Prop for P {
             vec(vec(0u16..=1000, 8..=8), 2..=8),
             prop_oneof![3 => Just(0u8), 7 => 1u8..=(PAIRS.len() as u8)],
         )
-            .prop_map(|(dag, outs, boxes, steps, samples, backend)| Case {
+            .prop_map(|(dag, outs, boxes, steps, samples, backend)| { let boxes = gens::coincide_boxes(&dag, boxes, 1e6); Case {
                 dag,
                 outs,
                 boxes,
                 steps,
                 samples,
                 backend,
-            })
+            }})
             .boxed()
     }
 
